@@ -119,10 +119,10 @@ def isTrue : Option Bool → Bool
 
 def dotIf (prefix_ : Nat) (s : Str) (elseVal : Str) : Str := if s.isEmpty then elseVal else prefix_ :: s
 
-/-- the conversions that replace `item[name]` by a string.  `vt` is the variant of the style-table site
-    (matrix non-exploded forms carry `name=` only when repaired), `vs` the variant of the `str(item)` site.
+/-- the conversions that replace `item[name]` by a string.  `vm` is the variant of the matrix site
+    (non-exploded matrix forms carry `name=` only when repaired), `vs` the variant of the `str(item)` site.
     `none` = outside the model (Python `repr` of a container, `json.dumps`). -/
-def convStr (vt vs : Variant) (name : Str) : Conv → Val → Option Str
+def convStr (vm vs : Variant) (name : Str) : Conv → Val → Option Str
   | .delimited d, x => (iterItems x).map fun items => joinWith [d] (items.map (itemStr vs))
   | .commaObject, x => (dictItems x).map fun kvs => joinWith [44] (flatKV vs kvs)
   | .delimitedObject, x => (dictItems x).map fun kvs => makeDelimited vs [44] kvs
@@ -145,7 +145,7 @@ def convStr (vt vs : Variant) (name : Str) : Conv → Val → Option Str
       if isTrue e then dotIf 59 (joinWith [59] (items.map fun p => name ++ 61 :: itemStr vs p)) []
       else
         let body := joinWith [44] (items.map (itemStr vs))
-        match vt with
+        match vm with
         | .asFound => dotIf 59 body []
         | .repaired => dotIf 59 (if body.isEmpty then [] else name ++ 61 :: body) []
   | .matrixObject e, x =>
@@ -153,7 +153,7 @@ def convStr (vt vs : Variant) (name : Str) : Conv → Val → Option Str
       if isTrue e then dotIf 59 (makeDelimited vs [59] kvs) []
       else
         let body := joinWith [44] (flatKV vs kvs)
-        match vt with
+        match vm with
         | .asFound => dotIf 59 body []
         | .repaired => dotIf 59 (if body.isEmpty then [] else name ++ 61 :: body) []
   | .toString, x =>
@@ -185,7 +185,7 @@ def popKey (k : Str) : Container → Container
 def updateKeys (c : Container) (kvs : List (Str × Val)) : Container := kvs.foldl (fun c kv => setKey kv.1 kv.2 c) c
 
 /-- one `@conversion`-wrapped function applied to the container: untouched when `name` is absent -/
-def applyConv (vt vs : Variant) (name : Str) (cv : Conv) (c : Container) : Option Container :=
+def applyConv (vm vs : Variant) (name : Str) (cv : Conv) (c : Container) : Option Container :=
   match getKey name c with
   | none => some c
   | some x =>
@@ -203,7 +203,7 @@ def applyConv (vt vs : Variant) (name : Str) (cv : Conv) (c : Container) : Optio
                     else some (updateKeys c' (kvs.map fun (k, p) => (k, .prim p)))
       | _ => some (setKey name (.prim (.str [])) c')
     | .toJson => none
-    | cv => (convStr vt vs name cv x).map fun s => setKey name (.prim (.str s)) c
+    | cv => (convStr vm vs name cv x).map fun s => setKey name (.prim (.str s)) c
 
 /-! ## the style × explode × type table: `_serialize_openapi3` -/
 
@@ -230,10 +230,7 @@ structure Cell where
 def when (b : Bool) (cs : List Conv) : List Conv := if b then cs else []
 
 /-- `_serialize_path_openapi3`, in yield order -/
-def pathConvs (vt : Variant) (ty : Ty) (style : Option Style) (explode : Option Bool) : List Conv :=
-  -- repaired: the defaults of OpenAPI 3.0 are applied first (style: simple, explode: false)
-  let style := match vt with | .asFound => style | .repaired => some (style.getD .simple)
-  let explode := match vt with | .asFound => explode | .repaired => some (explode.getD false)
+def pathConvs (ty : Ty) (style : Option Style) (explode : Option Bool) : List Conv :=
   when (style == some .simple)
     (when (ty == .object) (when (explode == some false) [.commaObject] ++ when (explode == some true) [.delimitedObject])
       ++ when (ty == .array) [.delimited 44])
@@ -243,10 +240,7 @@ def pathConvs (vt : Variant) (ty : Ty) (style : Option Style) (explode : Option 
     (if ty == .object then [.matrixObject explode] else if ty == .array then [.matrixArray explode] else [.matrixPrimitive])
 
 /-- `_serialize_query_openapi3` -/
-def queryConvs (vt : Variant) (ty : Ty) (style : Option Style) (explode : Option Bool) : List Conv :=
-  let explode := match vt with
-    | .asFound => explode
-    | .repaired => some (explode.getD (style == none || style == some .form))
+def queryConvs (ty : Ty) (style : Option Style) (explode : Option Bool) : List Conv :=
   if ty == .object then
     when (style == some .deepObject) [.deepObject]
     ++ when (style == none || style == some .form)
@@ -258,16 +252,13 @@ def queryConvs (vt : Variant) (ty : Ty) (style : Option Style) (explode : Option
   else []
 
 /-- `_serialize_header_openapi3` -/
-def headerConvs (vt : Variant) (ty : Ty) (explode : Option Bool) : List Conv :=
-  let explode := match vt with | .asFound => explode | .repaired => some (explode.getD false)
+def headerConvs (ty : Ty) (explode : Option Bool) : List Conv :=
   [.toString]
   ++ when (ty == .array) [.delimited 44]
   ++ when (ty == .object) (when (explode == some false) [.commaObject] ++ when (explode == some true) [.delimitedObject])
 
-/-- `_serialize_cookie_openapi3` (repaired: an absent `explode` is read as the default of the `form` style, `true`;
-    the deliberate removal of exploded arrays / objects is kept) -/
-def cookieConvs (vt : Variant) (ty : Ty) (explode : Option Bool) : List Conv :=
-  let explode := match vt with | .asFound => explode | .repaired => some (explode.getD true)
+/-- `_serialize_cookie_openapi3` -/
+def cookieConvs (ty : Ty) (explode : Option Bool) : List Conv :=
   [.toString]
   ++ when (isTrue explode && (ty == .array || ty == .object)) [.nothing]
   ++ when (explode == some false) (when (ty == .array) [.delimited 44] ++ when (ty == .object) [.commaObject])
@@ -280,48 +271,55 @@ structure PDef where
   content : Option Bool := none
   deriving Repr, DecidableEq
 
+/-- the repaired reading of `definition.get("style")` / `definition.get("explode")`: the defaults of OpenAPI 3.0
+    (`simple` for path and header, `form` for query and cookie; `explode` true exactly for `form`) -/
+def applyDefaults (c : Cell) : Cell :=
+  let st := c.style.getD (match c.loc with | .query | .cookie => .form | .path | .header => .simple)
+  { c with style := some st, explode := some (c.explode.getD (st == .form)) }
+
 def defConvs (vt : Variant) (d : PDef) : List Conv :=
   match d.content with
   | some isJson => when isJson [.toJson]
   | none =>
-    match d.cell.loc with
-    | .path => pathConvs vt d.cell.ty d.cell.style d.cell.explode
-    | .query => queryConvs vt d.cell.ty d.cell.style d.cell.explode
-    | .header => headerConvs vt d.cell.ty d.cell.explode
-    | .cookie => cookieConvs vt d.cell.ty d.cell.explode
+    let cell := match vt with | .asFound => d.cell | .repaired => applyDefaults d.cell
+    match cell.loc with
+    | .path => pathConvs cell.ty cell.style cell.explode
+    | .query => queryConvs cell.ty cell.style cell.explode
+    | .header => headerConvs cell.ty cell.explode
+    | .cookie => cookieConvs cell.ty cell.explode
 
 /-- all yielded functions with the name they close over, in yield order -/
 def allConvs (vt : Variant) (defs : List PDef) : List (Str × Conv) :=
   defs.flatMap fun d => (defConvs vt d).map fun c => (d.name, c)
 
 /-- `composed`: the functions are applied in **reversed** yield order -/
-def applyAll (vt vs : Variant) : List (Str × Conv) → Container → Option Container
+def applyAll (vm vs : Variant) : List (Str × Conv) → Container → Option Container
   | [], c => some c
   | (n, cv) :: rest, c =>
-    match applyConv vt vs n cv c with
+    match applyConv vm vs n cv c with
     | none => none
-    | some c' => applyAll vt vs rest c'
+    | some c' => applyAll vm vs rest c'
 
 /-- `serialize_openapi3_parameters(definitions)(container)`; `make_serializer` returns `None` (no mapping at all)
     when nothing was yielded, which is the identity here -/
-def serializeOpenapi3 (vt vs : Variant) (defs : List PDef) (c : Container) : Option Container :=
-  applyAll vt vs (allConvs vt defs).reverse c
+def serializeOpenapi3 (vt vm vs : Variant) (defs : List PDef) (c : Container) : Option Container :=
+  applyAll vm vs (allConvs vt defs).reverse c
 
 /-! ### one parameter, seen as the single string it becomes on the wire -/
 
-def applyConvsVal (vt vs : Variant) (name : Str) : List Conv → Val → Option Val
+def applyConvsVal (vm vs : Variant) (name : Str) : List Conv → Val → Option Val
   | [], x => some x
   | cv :: rest, x =>
-    match convStr vt vs name cv x with
+    match convStr vm vs name cv x with
     | none => none
-    | some s => applyConvsVal vt vs name rest (.prim (.str s))
+    | some s => applyConvsVal vm vs name rest (.prim (.str s))
 
 /-- The text that stands for parameter `name` of cell `c` with generated value `x` after the serializer and the later
     steps that stringify a primitive (path: `jsonify_python_specific_types` + `str.format`; query:
     `jsonify_python_specific_types` + requests' `str()`; headers, cookies: already `to_string`).
     `none`: the value is still a list / dict afterwards (spread over several entries, or reaches `repr`). -/
-def cellWire (vt vs : Variant) (c : Cell) (name : Str) (x : Val) : Option Str :=
-  match applyConvsVal vt vs name (defConvs vt ⟨name, c, none⟩).reverse x with
+def cellWire (vt vm vs : Variant) (c : Cell) (name : Str) (x : Val) : Option Str :=
+  match applyConvsVal vm vs name (defConvs vt ⟨name, c, none⟩).reverse x with
   | some (.prim p) => some (spell p)
   | _ => none
 
@@ -401,10 +399,10 @@ def quoteAllVal (v : Variant) : Val → Val
 
 /-- `Template._serialize` for one container (coverage phase): headers / cookies are stringified *before* the
     serializer, the query after it, path parameters are serialised, quoted, then stringified. -/
-def templateSerialize (vq vt vs : Variant) (loc : Loc) (defs : List PDef) (c : Container) : Option Container :=
+def templateSerialize (vq vt vm vs : Variant) (loc : Loc) (defs : List PDef) (c : Container) : Option Container :=
   match loc with
-  | .header | .cookie => serializeOpenapi3 vt vs defs (stringify false c)
-  | .query => (serializeOpenapi3 vt vs defs c).map (stringify true)
-  | .path => (serializeOpenapi3 vt vs defs c).map fun c' => stringify false (c'.map fun (k, x) => (k, quoteAllVal vq x))
+  | .header | .cookie => serializeOpenapi3 vt vm vs defs (stringify false c)
+  | .query => (serializeOpenapi3 vt vm vs defs c).map (stringify true)
+  | .path => (serializeOpenapi3 vt vm vs defs c).map fun c' => stringify false (c'.map fun (k, x) => (k, quoteAllVal vq x))
 
 end SV.Model.C06
